@@ -3,7 +3,7 @@ from __future__ import annotations
 
 import ast as _ast
 
-from ..common import all_conds, conds_at, nshow, outer_field, paths
+from ..common import all_conds, conds_at, held_method_call, nshow, outer_field, paths
 from ..expr import C, SELF, canon, norm, show, strip_epochs, walk
 from ..intervals import EQ, GT, LT, path_orderings
 from ..model import AnalysisError
@@ -16,7 +16,7 @@ EXPL = ("Decision tables over the enumerated paths of StreamThreshold.add_alt/re
 FILES = ["countminsketch/countminsketch.py"]
 
 
-def table_ops(p, tfield):
+def table_ops(p, tfield, prog=None, ctx=None):
     """ordered table operations on a path: ('set', key, value, ev) / ('pop', key, ev) / ('rebind', ev)"""
     ops = []
     for e in p.events:
@@ -28,6 +28,18 @@ def table_ops(p, tfield):
             ops.append(("pop" if e.name == "__delitem__" else e.name, strip_epochs(e.args[0]) if e.args else None, None, e))
         elif e.kind == "setfield" and e.name == tfield and e.base == SELF:
             ops.append(("rebind", None, strip_epochs(e.value), e))
+        elif e.kind == "call" and e.d.get("fn") is not None and prog is not None:
+            # table.pop remembered in a field and called through it
+            h = held_method_call(prog, ctx, e)
+            if h is not None and h[0] == ("f", SELF, tfield, 0) and h[1] in ("pop", "clear", "popitem", "update", "setdefault", "__setitem__", "__delitem__"):
+                if h[2] is not None:
+                    ops.append(("stale", None, None, h[2][1]))
+                elif h[1] == "__setitem__" and len(e.args) == 2:
+                    ops.append(("set", strip_epochs(e.args[0]), strip_epochs(e.args[1]), e))
+                elif h[1] == "__delitem__":
+                    ops.append(("pop", strip_epochs(e.args[0]) if e.args else None, None, e))
+                else:
+                    ops.append((h[1], strip_epochs(e.args[0]) if e.args else None, None, e))
     return ops
 
 
@@ -68,7 +80,7 @@ def stream_threshold(prog, rep):
                 good = False
                 break
             o = path_orderings([strip_epochs(c) for c in all_conds(p)], res, thr)
-            ops = table_ops(p, T)
+            ops = table_ops(p, T, prog, ctx)
             if not o:
                 continue  # contradictory conditions on estimate vs threshold: no execution takes this path
             if o <= {EQ, GT}:
@@ -81,6 +93,13 @@ def stream_threshold(prog, rep):
                 rep.bad("C17.threshold-table", where, f"undecided row {sorted(o)}",
                         f"a path through {fname} does not decide estimate vs threshold (admits {sorted(o)}): keys at or above the threshold and keys below it are treated alike",
                         f.where())
+                good = False
+                break
+            stale = [o_ for o_ in ops if o_[0] == "stale"]
+            if stale:
+                rep.bad("C17.threshold-table", where, "remembered table method is stale",
+                        "the table is changed through a bound method remembered in a field, and the table is re-bound here without refreshing it: "
+                        "after that the calls act on the discarded table", stale[0][3].where())
                 good = False
                 break
             got = [(a, b, c) for (a, b, c, _) in ops]
@@ -140,10 +159,15 @@ def heavy_hitters(prog, rep):
             a = strip_epochs(c.atom)
             if a[0] == "cmp" and a[1] in ("in", "notin") and a[2] == key and a[3] == table:
                 member = (a[1] == "in") == c.truth
-        ops = table_ops(p, T)
+        ops = table_ops(p, T, prog, ctx)
         sets = [o for o in ops if o[0] == "set"]
         pops = [o for o in ops if o[0] == "pop"]
         other = [o for o in ops if o[0] not in ("set", "pop")]
+        if other and other[0][0] == "stale":
+            rep.bad("C17.hitters-table", where, "remembered table method is stale",
+                    "the table is changed through a bound method remembered in a field, and the table is re-bound here without refreshing it", other[0][3].where())
+            good = False
+            continue
         if other:
             rep.bad("C17.hitters-table", where, f"{other[0][0]} on the table", f"add_alt performs {other[0][0]} on the tracking table", other[0][3].where())
             good = False
@@ -262,7 +286,7 @@ def check(prog, rep, tier):
     floor_reset_rule(prog, rep)
 
 
-from ..selftest import Mutant, del_stmt, insert_stmt, replace_expr, replace_stmt, swap_cmp
+from ..selftest import seq, Mutant, del_stmt, insert_stmt, replace_expr, replace_stmt, swap_cmp
 
 _CM = "countminsketch/countminsketch.py"
 MUTANTS = [
@@ -272,6 +296,15 @@ MUTANTS = [
     Mutant("StreamThreshold.remove_alt: < -> <=", _CM, swap_cmp("StreamThreshold", "remove_alt", _ast.Lt, _ast.LtE), rule="C17.threshold"),
     Mutant("StreamThreshold.remove_alt stores num_els", _CM, replace_stmt("StreamThreshold", "remove_alt", "self.__meets_threshold[key] = res", "self.__meets_threshold[key] = num_els"), rule="C17."),
     Mutant("StreamThreshold.add_alt returns the threshold-capped value", _CM, replace_stmt("StreamThreshold", "add_alt", "return res", "return min(res, self.__threshold)"), rule="C17.stored"),
+    Mutant("table.pop remembered in a field, refreshed by clear (same behaviour)", _CM, seq(
+        insert_stmt("StreamThreshold", "__init__", "self.__forget = self.__meets_threshold.pop", at_end=True),
+        insert_stmt("StreamThreshold", "clear", "self.__forget = self.__meets_threshold.pop", at_end=True),
+        replace_stmt("StreamThreshold", "add_alt", "self.__meets_threshold.pop(key, None)", "self.__forget(key, None)"),
+        replace_stmt("StreamThreshold", "remove_alt", "self.__meets_threshold.pop(key, None)", "self.__forget(key, None)")), expect="silent"),
+    Mutant("table.pop remembered in a field, clear re-binds the table without refreshing it", _CM, seq(
+        insert_stmt("StreamThreshold", "__init__", "self.__forget = self.__meets_threshold.pop", at_end=True),
+        replace_stmt("StreamThreshold", "add_alt", "self.__meets_threshold.pop(key, None)", "self.__forget(key, None)"),
+        replace_stmt("StreamThreshold", "remove_alt", "self.__meets_threshold.pop(key, None)", "self.__forget(key, None)")), rule="C17.threshold"),
     Mutant("HeavyHitters room test < -> <=", _CM, swap_cmp("HeavyHitters", "add_alt", _ast.Lt, _ast.LtE), rule="C17.hitters-table"),
     Mutant("HeavyHitters table stores num_els", _CM, replace_stmt("HeavyHitters", "add_alt", "self.__top_x[key] = res", "self.__top_x[key] = num_els", nth=1), rule="C17.stored"),
     Mutant("HeavyHitters replace pops before storing", _CM,
